@@ -143,6 +143,56 @@ def prop_check(cls, stamp0, timeout, redo, sched):
     return None
 
 
+def lifecycle_check(cls, stamp0, timeout, redo, items):
+    """Executable statement over a whole lifecycle, implementation alone.  items: a number d = advance the
+    stamp by d and (the driver) process the exchange if it is started and not done; "S" = start(7)
+    (again).  Statement: a started, unfinished exchange fails exactly at the first processing stamp at
+    which its timeout (> 0) has elapsed SINCE IT WAS LAST STARTED (never for a timeout <= 0), and
+    otherwise retransmits its message exactly when the redo interval (> 0) has elapsed since the last
+    (re)transmission/start.  Returns None or a description."""
+    defaults = {"Exchange": (2.0, 0.5), "Exchanger": (2.0, 0.5), "Exchangent": (0.5, 0.1)}[cls]
+    T = Fraction(timeout if timeout is not None else defaults[0])
+    R = Fraction(redo if redo is not None else defaults[1])
+    try:
+        stack, ex = make(cls, stamp0, timeout, redo, None)
+    except Exception as e:
+        return "%s: %s (creating an exchange with timeout=%r redo=%r)" % (type(e).__name__, e, timeout, redo)
+    s = Fraction(stamp0)
+    started = ref_done = ref_failed = False
+    last_start = last_redo = s
+    for i, it in enumerate(items):
+        try:
+            if it == "S":
+                ex.start(7)
+                started, ref_failed = True, False
+                ref_done = (cls == "Exchangent")     # Exchangent.start responds and finishes at once
+                last_start = last_redo = s
+            else:
+                stack.stamper.advance(it)
+                s += Fraction(it)
+                n0 = len(stack.sent)
+                if started and not ex.done:
+                    ex.process()
+                got = list(stack.sent[n0:])
+                want = []
+                if started and not ref_done:
+                    if T > 0 and s >= last_start + T:
+                        ref_failed = ref_done = True
+                    elif R > 0 and s >= last_redo + R:
+                        want, last_redo = [7], s
+                if got != want:
+                    return ("item %d: at stamp %s retransmitted %r, expected %r (last (re)transmission %s, redo %s)"
+                            % (i, s, got, want, last_redo, R))
+        except Exception as e:
+            return "%s: %s at item %d %r" % (type(e).__name__, e, i, it)
+        if started and bool(ex.failed) != ref_failed:
+            return ("item %d %r: at stamp %s failed=%r, but timeout %s since last start at %s %s elapsed"
+                    % (i, it, s, bool(ex.failed), T, last_start, "has" if ref_failed else "has not"))
+        if started and T <= 0 and ex.failed:
+            return "timeout %s <= 0 but the exchange failed" % T
+    return None
+
+
 # --------------------------------------------------------------------------- Coq rendering
 def cqf(x):
     return cq(Fraction(x))
@@ -216,6 +266,18 @@ def histories(ctx):
                     ops.append(("adv", step))
                     ops.append(("proc",))
                 yield (cls, 0.0 if cls != "Exchange" else 1.5, t, r, 5 if cls != "Exchanger" else None, ops, "grid")
+    # 1b. Exchanger lifecycles: stamp advances between construction and start; started again after
+    #     a failure / long after creation (both timers must be measured from the LAST start)
+    for t, r in itertools.product(GRID, GRID):
+        tail = []
+        for i in range(ctx.n(10, 16)):
+            tail += [("adv", 0.25), ("proc",)]
+        yield ("Exchanger", 1.0, t, r, None, [("adv", 0.5), ("start", 7)] + tail, "lifecycle")
+        yield ("Exchanger", 0.0, t, r, None, [("adv", 3.0), ("start", 7)] + tail, "lifecycle")
+        mid = []
+        for i in range(5):
+            mid += [("adv", 0.5), ("proc",)]
+        yield ("Exchanger", 0.0, t, r, None, [("start", 7)] + mid + [("start", 8)] + tail, "lifecycle")
     # 2. small scope exhaustive op sequences
     alpha = [("adv", 0.5), ("adv", 1.0), ("proc",), ("send", 3), ("send", None), ("start", 4), ("start", None), ("finish",)]
     L = ctx.n(3, 4)
@@ -284,15 +346,25 @@ def decimal_histories(ctx):
         yield t, r, ops, seq
 
 
-def schedules(ctx):
-    """(cls, stamp0, timeout, redo, sched) for the implementation-only property search"""
-    for cls in ("Exchanger",):
+def lifecycles(ctx):
+    """(cls, stamp0, timeout, redo, items) for the implementation-only search: plain start-then-schedule,
+    stamp advancing between construction and start, and start again after a failure / long after creation"""
+    for cls in ("Exchanger", "Exchangent"):
         for t, r in itertools.product(GRID, GRID):
-            yield (cls, 0.0, t, r, [0.25] * 12)
-            yield (cls, 1.0, t, r, [0.375, 0.0, 0.625, 1.0, 0.125, 0.5, 2.0])
-    for _ in range(200):
-        yield ("Exchanger", dy(ctx.rng, 0, 3), ctx.rng.choice(GRID), ctx.rng.choice(GRID),
-               [dy(ctx.rng, 0, 1.25) for _ in range(ctx.rng.randint(0, 14))])
+            yield (cls, 0.0, t, r, ["S"] + [0.25] * 12)
+            yield (cls, 1.0, t, r, ["S", 0.375, 0.0, 0.625, 1.0, 0.125, 0.5, 2.0])
+            yield (cls, 1.0, t, r, [0.5, "S"] + [0.25] * 10)                      # advance before start
+            yield (cls, 0.0, t, r, [3.0, "S", 0.125, 0.25, 0.5, 1.0, 1.0])         # long after creation
+            yield (cls, 0.0, t, r, ["S"] + [0.5] * 5 + ["S"] + [0.25] * 10)        # start again (after failure)
+            yield (cls, 0.0, t, r, ["S", 0.25, "S", 0.25, 0.25, "S"] + [0.5] * 5)
+    for _ in range(300):
+        items = []
+        for _ in range(ctx.rng.randint(0, 16)):
+            items.append("S" if ctx.rng.random() < 0.15 else dy(ctx.rng, 0, 1.25))
+        if ctx.rng.random() < 0.5:
+            items.insert(0, "S")
+        yield (ctx.rng.choice(["Exchanger", "Exchanger", "Exchangent"]), dy(ctx.rng, 0, 3),
+               ctx.rng.choice(GRID), ctx.rng.choice(GRID), items)
 
 
 def run(ctx):
@@ -370,27 +442,28 @@ def run(ctx):
 
     def search():
         best = None
-        for cls, s0, t, r, sched in schedules(ctx):
-            why = prop_check(cls, s0, t, r, sched)
-            if why and (best is None or len(sched) < len(best["schedule"])):
-                best = {"class": cls, "stamp0": s0, "timeout": t, "redo_timeout": r, "schedule": sched,
+        for cls, s0, t, r, items in lifecycles(ctx):
+            why = lifecycle_check(cls, s0, t, r, items)
+            if why and (best is None or len(items) < len(best["lifecycle"])):
+                best = {"class": cls, "stamp0": s0, "timeout": t, "redo_timeout": r, "lifecycle": items,
                         "redo_parameter_name": redo_param(), "why": why,
-                        "contradicts": "C38.Props ctor_total / fails_iff_timeout_elapsed / redo_once_per_interval",
-                        "key": "exchange-" + ("ctor" if "Error" in why.split(":")[0] else "schedule")}
-                if not sched:
+                        "legend": "number = advance the stamp, then process() if started and not done; 'S' = start(7)",
+                        "contradicts": "C38.Props ctor_total / lifetime_fails_iff_timeout_first / "
+                                       "lifetime_redo_once_per_interval / lifetime_is_schedule_walk",
+                        "key": "exchange-" + ("ctor" if "creating" in why else "schedule")}
+                if not items:
                     break
         if best is not None:
-            # shrink the schedule
-            sched = list(best["schedule"])
+            items = list(best["lifecycle"])     # greedy shrink
             i = 0
-            while i < len(sched):
-                cand = sched[:i] + sched[i + 1:]
-                if prop_check(best["class"], best["stamp0"], best["timeout"], best["redo_timeout"], cand):
-                    sched = cand
+            while i < len(items):
+                cand = items[:i] + items[i + 1:]
+                if lifecycle_check(best["class"], best["stamp0"], best["timeout"], best["redo_timeout"], cand):
+                    items = cand
                 else:
                     i += 1
-            best["schedule"] = sched
-            best["why"] = prop_check(best["class"], best["stamp0"], best["timeout"], best["redo_timeout"], sched)
+            best["lifecycle"] = items
+            best["why"] = lifecycle_check(best["class"], best["stamp0"], best["timeout"], best["redo_timeout"], items)
         return best
 
     ctx.settle(search)
